@@ -1331,6 +1331,14 @@ func remapIndex(ctx context.Context, mp *mhprimary.MultihashPrimary, buckets Buc
 		_, err = os.Stat(doneName)
 		if !os.IsNotExist(err) {
 			log.Infow("index file already remapped", "file", fileName)
+			// The marker is created before the remapped copy is renamed over
+			// the index file. If the copy is still there, then the rename did
+			// not happen, so do it now.
+			if _, err = os.Stat(tmpName); err == nil {
+				if err = os.Rename(tmpName, fileName); err != nil {
+					return nil, fmt.Errorf("error renaming remapped file %s to %s: %w", tmpName, fileName, err)
+				}
+			}
 			indexCount += len(bucketPrefixes)
 			continue
 		}
